@@ -257,25 +257,25 @@ static void md_gen(Ctx& ctx) {
     struct W { int base, maxn; };
     const W ws[] = {{2, ctx.by_tier(12, 14)}, {3, ctx.by_tier(8, 9)}, {5, ctx.by_tier(5, 6)}};
     for (auto w : ws)
-        for (int n = 3; n <= w.maxn; ++n)
+        for (int n = 1; n <= w.maxn; ++n)   // the quantifier's arrays start at length 1
             for (long code = 0; code < ipow(w.base, n); ++code) {
                 if (!ctx.mine()) continue;
                 ctx.eval(Json::object().set("n", n).set("base", w.base).set("code", (long long)code));
             }
-    for (int n = 3; n <= ctx.by_tier(7, 8); ++n)
+    for (int n = 1; n <= ctx.by_tier(7, 8); ++n)
         for (long code = 0; code < factorial(n); ++code) {
             if (!ctx.mine()) continue;
             ctx.eval(Json::object().set("n", n).set("perm", (long long)code));
         }
     const int reps = ctx.by_tier(4, 40);
     for (int rep = 0; rep < reps; ++rep)
-        for (int n = 3; n <= 2000; ++n)
+        for (int n = 1; n <= 2000; ++n)
             for (int cls = 0; cls < K_NCONTENT; ++cls) {
                 if (!ctx.mine()) continue;
                 ctx.eval(Json::object().set("n", n).set("cls", cls).set("seed", (long long)(mix(ctx.seed, key_of(n, cls, rep, 77)) >> 16)));
             }
     ctx.rc("random", ctx.by_tier(300000, 3000000), [&]() {
-        int n = pick_log(3, 2000);
+        int n = pick_log(1, 2000);
         return Json::object().set("n", n).set("cls", pick(0, K_NCONTENT - 1)).set("seed", (long long)seed64());
     });
 }
